@@ -504,6 +504,7 @@ mod builtins {
         }
 
         let joiner_str = joiner.as_ref().map(StringInput::as_str).unwrap_or_default();
+        ok!(state.undefined_behavior().assert_iterable(value));
         let iter = ok!(value.try_iter().map_err(|err| {
             Error::new(
                 ErrorKind::InvalidOperation,
@@ -1627,14 +1628,19 @@ mod builtins {
     /// the "CA" group will have two values.  This can be disabled by passing
     /// `case_sensitive=True`.
     #[cfg_attr(docsrs, doc(cfg(feature = "builtins")))]
-    pub fn groupby(value: Value, attribute: Option<&str>, kwargs: Kwargs) -> Result<Value, Error> {
+    pub fn groupby(
+        state: &State,
+        value: Value,
+        attribute: Option<&str>,
+        kwargs: Kwargs,
+    ) -> Result<Value, Error> {
         let default = ok!(kwargs.get::<Option<Value>>("default")).unwrap_or_default();
         let case_sensitive = ok!(kwargs.get::<Option<bool>>("case_sensitive")).unwrap_or(false);
         let attr = match attribute {
             Some(attr) => attr,
             None => ok!(kwargs.get::<&str>("attribute")),
         };
-        let mut items: Vec<Value> = ok!(value.try_iter()).collect();
+        let mut items: Vec<Value> = ok!(state.undefined_behavior().try_iter(value)).collect();
         safe_sort(&mut items, |a, b| {
             let a = a.get_path_or_default(attr, &default);
             let b = b.get_path_or_default(attr, &default);
